@@ -1,5 +1,10 @@
 // ---------------------------------------------------------------------------
-// shim/normalize.rs -- TRUSTED.  (stage 0 skeleton)
+// shim/normalize.rs -- TRUSTED.  What the extracted basic-normalization passes (intermediate_representation/project.rs,
+// project/block_duplication_normalization.rs, sub.rs, blk.rs; unit `normalize`, property C09) may assume about std, about
+// derive-generated code, about `utils::log::LogMessage` and about the NAMES (`Tid`s) that the passes generate by string
+// concatenation.  `std::collections::{BTreeMap, HashMap, HashSet}` are NOT shimmed: vstd's specifications are used (incl.
+// `BTreeMap::get_mut`, `Vec::iter_mut`), under the hypotheses cfg_key_hyp (spec/cfgbuild.rs).
+// Every item is an assumption and is listed in contracts/normalize.vc.
 // ---------------------------------------------------------------------------
 
 // std's maps, imported through a GLOB of a tiny module (may coexist with explicit `use std::collections::..` of imported units)
@@ -13,3 +18,69 @@ pub struct CallingConvention { _p: () }
 pub struct DatatypeProperties { _p: () }
 #[verifier::external_body]
 pub struct RuntimeMemoryImage { _p: () }
+
+// ---- NAMES ----------------------------------------------------------------------------------------------------------------
+// `Tid { id: String, address: String }`.  The passes build new tids with `format!` / `String + &str`; Verus has no theory
+// of string concatenation that would decide when two such names collide, so the names are UNINTERPRETED functions of their
+// ingredients.  The contracts of the `Tid` helpers below (@nobody in contracts/normalize.vc) say which function a helper
+// computes; the two axioms are facts of string concatenation; everything else that the proofs need about names
+// ("a generated name differs from ...") is a HYPOTHESIS on the input program, stated in spec/normalize.rs (nz_names_*).
+
+/// `Tid::artificial_sink_sub()`: id "Artificial Sink Sub", address "UNKNOWN"
+pub uninterp spec fn nz_sink_sub() -> Tid;
+/// `Tid::artificial_sink_block(suffix)`: id "Artificial Sink Block" + suffix, address "UNKNOWN"
+pub uninterp spec fn nz_sink_blk(suffix: Seq<char>) -> Tid;
+/// `tid.is_artificial_sink_block(suffix)`: id starts with "Artificial Sink Block", ends with suffix, address "UNKNOWN"
+pub uninterp spec fn nz_is_sink_blk(t: Tid, suffix: Seq<char>) -> bool;
+/// `tid.with_id_suffix(suffix)`: id + suffix, same address
+pub uninterp spec fn nz_with(t: Tid, suffix: Seq<char>) -> Tid;
+/// `format!("_{}", tid)` (`Term<Sub>::id_suffix`, the suffix of block duplication): "_" + id (Display of Tid writes the id)
+pub uninterp spec fn nz_sfx(t: Tid) -> Seq<char>;
+
+/// "Artificial Sink Block" + s starts with "Artificial Sink Block", ends with s, and has the address "UNKNOWN".
+pub broadcast axiom fn axiom_nz_sink_blk_is(s: Seq<char>)
+    ensures #[trigger] nz_is_sink_blk(nz_sink_blk(s), s);
+
+/// ("Artificial Sink Block" + "") + s == "Artificial Sink Block" + s, same address "UNKNOWN" (and a `Tid` is determined by
+/// the characters of its two strings).
+pub broadcast axiom fn axiom_nz_sink_blk_with(s: Seq<char>)
+    ensures #[trigger] nz_with(nz_sink_blk(Seq::<char>::empty()), s) == nz_sink_blk(s);
+
+/// R9 target for `format!("_{}", TID)` (block_duplication_normalization.rs): the text is the function nz_sfx of the tid.
+#[verifier::external_body]
+pub fn verif_nz_sub_suffix(t: &Tid) -> (r: String)
+    ensures r@ == nz_sfx(*t)
+{ unimplemented!() }
+
+// ---- derive-generated Clone of the IR terms --------------------------------------------------------------------------------
+/// `#[derive(Clone)]` on `Term<T>`, `Blk`, `Def`, `Jmp`, `Sub` (and below them `Expression`, `Variable`, `String`, `Vec`, `ApInt`):
+/// a clone equals the original.
+impl<T> Clone for Term<T> {
+    #[verifier::external_body]
+    fn clone(&self) -> (r: Term<T>)
+        ensures r == *self
+    { unimplemented!() }
+}
+
+// ---- utils::log::LogMessage (opaque type of shim/cfgbuild.rs): constructors without specification ------------------------------
+impl LogMessage {
+    /// `LogMessage::new_error(text)`: some log message (C09 does not speak about log messages)
+    #[verifier::external_body]
+    pub fn new_error<T>(text: T) -> (r: LogMessage)
+    { unimplemented!() }
+    /// `LogMessage::new_info(text)`
+    #[verifier::external_body]
+    pub fn new_info<T>(text: T) -> (r: LogMessage)
+    { unimplemented!() }
+    /// `msg.location(tid)`
+    #[verifier::external_body]
+    pub fn location(self, location: Tid) -> (r: LogMessage)
+    { unimplemented!() }
+}
+
+// ---- panics that the unit PROVES unreachable ------------------------------------------------------------------------------------
+/// R9 target for `panic!("Duplicate of TID {} encountered.", sub.tid)`: precondition `false`, i.e. a PROOF OBLIGATION.
+#[verifier::external_body]
+pub fn nz_panic<T>() -> (r: T)
+    requires false
+{ unimplemented!() }
